@@ -6,6 +6,7 @@ import (
 	internaltypes "lunar/engine/streams/internal-types"
 	publictypes "lunar/engine/streams/public-types"
 	streamtypes "lunar/engine/streams/types"
+	"lunar/toolkit-core/verifhook"
 
 	"github.com/rs/zerolog/log"
 )
@@ -69,6 +70,8 @@ func (s *Stream) ExecuteFlow(
 	}
 
 	log.Debug().Msgf("Executed processor %s. ProcIO: %+v", node.GetProcessorKey(), procIO)
+	verifhook.Event("proc.executed", apiStream.GetID(), flow.GetName(), node.GetProcessorKey(),
+		apiStream.GetType().String(), procIO.Name)
 
 	if apiStream.GetActionsType().IsRequestType() {
 		if procIO.IsRequestActionAvailable() {
